@@ -248,7 +248,7 @@ COAL_RULE = ("record groups parsed from generated text: empty and EOE-only group
              "EXECVE (argc consistent, too large, non-numeric), SOCKADDR (IPv4, IPv6, unix, netlink, too short), PROCTITLE, AVC/other records, a special record in front, groups without SYSCALL; extra fields drawn from a pool that collides across records "
              "(pid, uid, exe, cwd, addr, items, socket_addr, argc, a0, result, ses, subj_user, ...); records without data content. Each group is coalesced three times with snapshots of every input's Data/Tags/ToMapStr before and after, "
              "ResolveIDs with hard-coded users on a returned event whose ECS slices are then mutated, and the last 8 events of the run are re-compared after every later call. non-trivial = an event was returned; distinct by case term")
-SPECS["C09"] = dict(targets=["Properties/C09.vo"], judge_targets=["Check/ChkCoalesce.vo"], imports="Require Import Bytes Parser ChkCoalesce.\nLocal Open Scope string_scope.", case_type="ecase", judge="judge_c09",
+SPECS["C09"] = dict(targets=["Properties/C09.vo"], judge_targets=["Check/ChkNorm.vo"], imports="Require Import Bytes Parser ChkCoalesce ChkNorm.\nLocal Open Scope string_scope.", case_type="ecase", judge="judge_c09n",
                     shard=2500, explore=explore_c09, exhaustive=True,
                     rule=COAL_RULE + "; plus ALL 65536 st_mode values on the selected PATH record (exhaustive)",
                     assumptions=["records enter the checker as what AuditMessage.Data()/Tags() returned for them (the parser is covered by C04/C05/C12)",
